@@ -246,6 +246,15 @@ function prependPath(parentPath: string[], err: DecodeError): DecodeError {
   return { ...err, path: [...parentPath, ...err.path] };
 }
 
+// plain-object dictionaries must not be indexed with keys taken from the input:
+// "constructor", "toString", "__proto__" would hit Object.prototype
+const ownDictGet = <T>(dict: Record<string, T>, key: unknown): T | undefined => {
+  if (typeof key !== "string" && typeof key !== "number" && typeof key !== "boolean") {
+    return undefined;
+  }
+  return Object.prototype.hasOwnProperty.call(dict, key) ? dict[String(key)] : undefined;
+};
+
 function deduplicateErrors(errors: DecodeError[]): DecodeError[] {
   const seen = new Set<string>();
   return errors.filter((err) => {
@@ -1850,7 +1859,7 @@ export class AnyOfDiscriminatedRuntype extends BaseRuntype {
     if (d == null) {
       return false;
     }
-    const v = this.mapping[d];
+    const v = ownDictGet(this.mapping, d);
     if (v == null) {
       return false;
     }
@@ -1858,7 +1867,7 @@ export class AnyOfDiscriminatedRuntype extends BaseRuntype {
     return v.validate(ctx, input);
   }
   parseAfterValidation(ctx: ParseContext, input: any): unknown {
-    const parser = this.mapping[input[this.discriminator]];
+    const parser = ownDictGet(this.mapping, input[this.discriminator]);
     if (parser == null) {
       throw new Error(
         "INTERNAL ERROR: Missing parser for discriminator " + JSON.stringify(input[this.discriminator]),
@@ -1878,7 +1887,7 @@ export class AnyOfDiscriminatedRuntype extends BaseRuntype {
     if (d == null) {
       return buildError(ctx, "expected discriminator key " + JSON.stringify(this.discriminator), input);
     }
-    const v = this.mapping[d];
+    const v = ownDictGet(this.mapping, d);
     if (v == null) {
       pushPath(ctx, this.discriminator);
       const errs = buildError(
